@@ -28,6 +28,10 @@ def clean():
 
 
 meta = json.load(open(f"{M}/meta.json"))
+import re
+# normalise the demonstration command: prose in parentheses, and commands that (re-)apply the patch themselves
+meta["demo_cmd"] = re.sub(r"\s*\([^()]*tests/ dir[^()]*\)", "", meta["demo_cmd"])
+meta["demo_cmd"] = re.sub(r"git -C \S+ apply \S+\s*&&\s*", "", meta["demo_cmd"])
 res = {"confirmed_by": "tools/confirm_seed.py", "steps": {}}
 clean()
 rc, out = sh(f"git apply --check {M}/patch.diff && git apply {M}/patch.diff", cwd=W)
